@@ -16,6 +16,7 @@ import (
 
 	"github.com/google/uuid"
 	"github.com/rbell/toolchest/workqueue"
+	"verifharness/internal/werr"
 )
 
 // Stim is one stimulus = one environment label of Model/WQ.v.
@@ -51,10 +52,6 @@ type Step struct {
 	O Obs  `json:"o"`
 }
 
-type tokErr struct{ k int }
-
-func (e *tokErr) Error() string { return "err" + strconv.Itoa(e.k) }
-
 type item struct {
 	idx      int
 	prio     int
@@ -79,7 +76,7 @@ type sess struct {
 	items    []*item
 	startCh  chan int
 	subs     []chan error
-	errs     []*tokErr
+	errs     *werr.Store // the error values work functions return, of every dynamic kind (token k -> value)
 	steps    []Step
 	unstable bool   // a quiescence wait timed out: the run says nothing
 	dispID   string // goroutine id of this queue's dispatcher
@@ -221,7 +218,7 @@ func newSessOpts(opts []Opt) *sess { return newSessShared(opts, false) }
 // queues, which must stay independent (a "sib" stimulus resizes the sibling; nothing may change here).
 func newSessShared(opts []Opt, sibling bool) *sess {
 	W, L := effectiveCfg(opts)
-	s := &sess{W: W, L: L, opts: opts, startCh: make(chan int, 4096)}
+	s := &sess{W: W, L: L, opts: opts, startCh: make(chan int, 4096), errs: werr.NewStore()}
 	quiesce()
 	old := map[string]bool{}
 	for id := range dispState {
@@ -412,6 +409,9 @@ func (s *sess) do(st Stim) Obs {
 	case "fin":
 		if st.A >= 0 && st.A < len(s.items) && !s.items[st.A].released {
 			s.items[st.A].released = true
+			if st.B >= 0 {
+				s.errs.Make(st.B)
+			}
 			s.items[st.A].gate <- st.B
 		} else {
 			note = "fin-ignored"
@@ -459,8 +459,8 @@ func (s *sess) do(st Stim) Obs {
 			case e := <-s.subs[st.A]:
 				if e == nil {
 					res = -2
-				} else if te, ok := e.(*tokErr); ok && te.k < len(s.errs) && s.errs[te.k] == te {
-					res = te.k // pointer identity with the value the work function returned
+				} else if k, ok := s.errs.Token(e); ok {
+					res = k // the very value the work function returned (identity / equality / tag, by dynamic type)
 				} else {
 					res = -3
 				}
@@ -532,12 +532,9 @@ func permute[T any](xs []T, k int) []T {
 	return r
 }
 
-func (s *sess) errOf(k int) error {
-	for len(s.errs) <= k {
-		s.errs = append(s.errs, &tokErr{len(s.errs)})
-	}
-	return s.errs[k]
-}
+// errOf: the error value of token k; it is created on the harness' goroutine before the gate is released (see "fin"),
+// the work function only reads it.
+func (s *sess) errOf(k int) error { return s.errs.Make(k) }
 
 func (s *sess) observe() Obs {
 	o := Obs{Started: []int{}, Returned: []int{}, Items: [][3]int{}, Consulted: []int{}}
